@@ -239,7 +239,14 @@ impl NameCompressor {
         for i in 0..32 {
             // Check the hash first, as it's less likely to match. It's also
             // okay if both checks are performed unconditionally.
-            if self.hash[i] != hash || self.parent[i] != parent {
+            //
+            // An unused slot has a zero hash and a zero parent, which is
+            // what a child of the first entry with a zero hash looks for:
+            // skip unused slots explicitly.
+            if self.len[i] == 0
+                || self.hash[i] != hash
+                || self.parent[i] != parent
+            {
                 continue;
             };
 
@@ -407,7 +414,14 @@ impl NameCompressor {
         for i in 0..32 {
             // Check the hash first, as it's less likely to match. It's also
             // okay if both checks are performed unconditionally.
-            if self.hash[i] != hash || self.parent[i] != parent {
+            //
+            // An unused slot has a zero hash and a zero parent, which is
+            // what a child of the first entry with a zero hash looks for:
+            // skip unused slots explicitly.
+            if self.len[i] == 0
+                || self.hash[i] != hash
+                || self.parent[i] != parent
+            {
                 continue;
             };
 
